@@ -51,7 +51,8 @@ structure JoinOp where
   query : JQuery
 
 def parseJoinOp : List String → Option JoinOp
-  | "jn" :: mode :: opt :: _fmt :: _kinds :: "DB" :: n :: rest => do
+  | kindTok :: mode :: opt :: _fmt :: _kinds :: "DB" :: n :: rest => do
+    if kindTok != "jn" && kindTok != "jf" then none
     let (db, r) ← parseTables n.toNat! rest
     match r with
     | "Q" :: r =>
@@ -79,10 +80,38 @@ def renderSorted (rows : List Row) : String :=
 def sinkOf (mode : String) : SinkMode :=
   if mode == "json" || mode == "csv" then .eager else if mode == "stream_native" then .native else .table
 
+def bit (b : Bool) : String := if b then "1" else "0"
+
+/-- `jf`: the NoRetractions flag of the root and of every join node of the plan that is run -/
+def modelFlags (op : JoinOp) : String :=
+  match planQ op.db op.query with
+  | none => "err"
+  | some p =>
+    let p' := if op.opt then optimize op.db p else p
+    String.intercalate " " ("flags" :: bit p'.noRetr :: p'.joinFlags.map fun f => String.singleton f.1 ++ bit f.2)
+
+def kindChar : JKind → Char
+  | .inner => 's' | .lookup => 'l' | _ => 'o'
+
+/-- `jf` oracle: a plan node whose result can contain retractions must not be flagged NoRetractions (the csv/json
+    sinks print the records of a flagged plan as they arrive, retractions included) -/
+def judgeFlags (op : JoinOp) (out : List String) : String :=
+  match out with
+  | "flags" :: root :: nodes =>
+    let want := op.query.frm.joins
+    if root == "1" && op.query.frm.mayRetract then "bad root-claims-NoRetractions-but-the-plan-retracts"
+    else if nodes.length != want.length then "ok plan-shape-not-comparable"
+    else
+      let bad := (List.zip nodes want).any fun p =>
+        p.1 == String.singleton (kindChar p.2.1) ++ "1" && p.2.2
+      if bad then "bad join-node-claims-NoRetractions-but-can-retract" else "ok"
+  | _ => s!"bad no-flags-output {String.intercalate " " out}"
+
 def model (toks : List String) : String :=
   match parseJoinOp toks with
   | none => "bad-op"
   | some op =>
+    if toks.head? == some "jf" then modelFlags op else
     match runQueryMode (sinkOf op.mode) alternate op.opt op.query op.db with
     | none => "err"
     | some rows => renderSorted rows
@@ -99,6 +128,7 @@ def judge (toks : List String) (out : List String) : String :=
     else if out == ["timeout"] then "bad timeout"
     else if out == ["err"] then
       if rejected op then "ok rejected-outer-join-predicate" else "bad unexpected-error"
+    else if toks.head? == some "jf" then judgeFlags op out
     else
       match splitRows out with
       | none => s!"bad no-rows-output {String.intercalate " " out}"
